@@ -21,19 +21,20 @@ def gen_sequences(tier, rng):
     ndup = 6 if tier == 'quick' else 7
     for n in range(1, nperm + 1):
         for i, perm in enumerate(itertools.permutations(range(1, n + 1))):
-            fl = ('own', 'int') if i % 3 == 0 else (('own', 'addr') if i % 3 == 1 else ('chain', 'lex'))
+            fl = [('own', 'int'), ('own', 'addr'), ('chain', 'lex'), ('own', 'diff')][i % 4]
             yield ('perm', fl[0], fl[1], [[k] for k in perm], 1, [[k] for k in range(0, n + 2)])
     for ln in range(1, ndup + 1):
         for i, seq in enumerate(itertools.product(range(1, 5), repeat=ln)):
             if len(set(seq)) == ln and ln > 1 and tier == 'quick':
                 continue            # duplicate-free ones are covered by the permutations
-            fl = ('own', 'int') if i % 2 == 0 else ('chain', 'lex')
+            fl = [('own', 'int'), ('chain', 'lex'), ('own', 'diff')][i % 3]
             yield ('dups', fl[0], fl[1], [[k] for k in seq], 1, [[k] for k in range(0, 6)])
     # lexicographic keys: prefixes, equal heads, empty key
     alphabet = [[], [1], [1, 1], [1, 2], [2], [2, 1], [1, 1, 1], [0], [-1, 5], [1, 2, 3]]
     for r in range(40 if tier == 'quick' else 400):
         seq = [rng.choice(alphabet) for _ in range(rng.randint(1, 14))]
-        yield ('lex', rng.choice(['own', 'chain']), 'lex', seq, 1, alphabet + [[3], [1, 3]])
+        fl = rng.choice([('own', 'lex'), ('chain', 'lex'), ('own', 'lexdiff')])
+        yield ('lex', fl[0], fl[1], seq, 1, alphabet + [[3], [1, 3]])
     big = 10_000 if tier == 'quick' else 300_000
     every = 500 if tier == 'quick' else 20_000
     shapes = {
@@ -45,7 +46,7 @@ def gen_sequences(tier, rng):
         'few-distinct': [rng.randrange(50) for _ in range(big // 10)],
     }
     for i, (name, keys) in enumerate(shapes.items()):
-        fl = [('own', 'int'), ('own', 'addr'), ('chain', 'lex'), ('own', 'lex')][i % 4]
+        fl = [('own', 'int'), ('own', 'addr'), ('chain', 'lex'), ('own', 'lex'), ('own', 'diff'), ('own', 'lexdiff')][i % 6]
         probes = [[rng.randrange(-big - 5, big + 5)] for _ in range(300)]
         yield (name, fl[0], fl[1], [[k] for k in keys], every, probes)
 
@@ -130,7 +131,7 @@ def run(tier):
         if labels[label] <= 1:
             res.sample({'kind': label, 'flavour': fl, 'cmp': cmp, 'keys': [key_s(k) for k in keys[:12]], 'n_keys': len(keys)})
     text = '\n'.join(ops) + '\n'
-    rc_i, out_i, err_i = C.run_exe(probe, [], text)
+    rc_i, out_i, err_i = C.run_exe(probe, [], text, timeout=240 if tier == 'quick' else 1800)
     rc_m, out_m, err_m = C.run_model('c08', text)
     if rc_m != 0:
         raise C.BuildError('model driver failed: ' + err_m[-2000:])
@@ -150,8 +151,11 @@ def run(tier):
     bad = oracle(ops, impl, chk)
     if rc_i != 0 or len(impl) != len(ops):
         i = min(len(impl), len(ops) - 1)
-        res.violation('crash', 'rbprobe stopped (exit %d) after %d of %d ops\n%s' % (rc_i, len(impl), len(ops), err_i[-3000:]),
-                      '\n'.join(seq_of(i)))
+        s0 = max(x for x in starts if x <= i)
+        e0 = min([x for x in starts if x > i] + [len(ops)])
+        what = 'did not terminate (time limit)' if rc_i == C.TIMEOUT else 'stopped (exit %d)' % rc_i
+        res.violation('crash', 'rbprobe %s after %d of %d ops, inside the sequence starting at op %d\n%s' % (what, len(impl), len(ops), s0, err_i[-3000:]),
+                      '\n'.join(ops[s0:e0]))
     elif bad:
         i, msg = bad
         res.violation('statement', msg, '\n'.join(seq_of(i)))
@@ -180,7 +184,7 @@ def run(tier):
     res.cov['exhaustive'] = False
     res.assumptions += [
         'consistent parent links are checked on the real structure after every dump/stat (not proved: the model is persistent)',
-        'comparators of the probe (int, address, lexicographic) are the lawful instances proved in C08_icmp_lawful / C08_lexCmp_lawful',
+        'comparators of the probe (int, address, lexicographic; also difference-valued variants with the same sign) are the lawful instances proved in C08_icmp_lawful / C08_lexCmp_lawful',
     ]
     return res.finish(info, rule='all permutations of 1..n and all duplicate-bearing sequences over {1..4} up to the tier bound, '
                       'lexicographic keys, then long sorted/reversed/random/organ-pipe/zig-zag/few-distinct sequences; exact shape, size, '
